@@ -295,6 +295,17 @@ impl InjectorPP {
     }
 }
 
+impl Drop for InjectorPP {
+    fn drop(&mut self) {
+        // Restore patches newest-first. Each guard saved the bytes it found at install time,
+        // so a function faked more than once only gets its original code back if the later
+        // patch is undone before the earlier one.
+        while let Some(guard) = self.guards.pop() {
+            drop(guard);
+        }
+    }
+}
+
 impl Default for InjectorPP {
     fn default() -> Self {
         Self::new()
